@@ -184,6 +184,19 @@ def run_seq(ctx, segs, full):
         ctx.ev(sig("div_noauth"))
         verify(ctx, "div_noauth", {"entry": "div_noauth", "base": "/x/y", "segs": segs, "piece": joined}, guarded(lambda: URL("/x/y") / joined),
                splice("/x/y", [pct25(joined)], False), False)
+    # join onto a base that kept dot segments (encoded=True keeps the caller's text): the merged path must still be normalised
+    if segs and not joined.startswith("/"):
+        for tail in ("d", "d/e", "", "?q"):
+            bs = "http://h/" + lit(joined) + "/c"
+            b = guarded(URL, bs, encoded=True)
+            ref = guarded(URL, tail)
+            if is_exc(b) or is_exc(ref):
+                continue
+            merged = rfc.merge(True, "/" + lit(joined) + "/c", ref.raw_path) if ref.raw_path else None
+            if merged is None:
+                continue  # empty reference path: the base path is taken over as it is
+            ctx.ev(sig("join_encoded_base"))
+            verify(ctx, "join_encoded_base", {"entry": "join_encoded_base", "base": bs, "segs": segs, "ref": tail}, guarded(lambda: b.join(ref)), rfc.remove_dot_segments(merged), True)
     # 11-12 join: rootless and rooted references (re-quoting: the reference is parsed by the constructor)
     for base, bpath in (("http://h/x/y", "/x/y"), ("http://h/x/y/", "/x/y/"), ("http://h", "")):
         if joined and not joined.startswith("/"):
